@@ -62,10 +62,15 @@ def generate(seed, tier, prop):
         T = [280.0, 300.0, 320.0, 340.0, 360.0, 380.0]
         dens = [round(1130.0 - 0.45 * t, 3) for t in T]
         visc = [round(2e-3 - 4e-6 * t, 9) for t in T]
+        # wide table for the non-extrapolating variant (a query outside the table is an error by design)
+        Tw = [200.0, 280.0, 320.0, 360.0, 420.0, 600.0]
+        densw = [round(1130.0 - 0.45 * t, 3) for t in Tw]
+        viscw = [round(2.6e-3 - 4e-6 * t, 9) for t in Tw]
         program["fluid_spec"] = {"name": "custom_liquid", "type": "liquid", "props": {
-            "density": rng.choice([["linear", -0.45, 1130.0], ["interextra", T, dens], ["polynominal", T, dens, 2]]),
+            "density": rng.choice([["linear", -0.45, 1130.0], ["interextra", T, dens], ["polynominal", T, dens, 2],
+                                   ["interextra", Tw, densw, "interpolate"]]),
             "viscosity": rng.choice([["constant", 8e-4, False], ["constant", 8e-4, True], ["interextra", T, visc],
-                                     ["polynominal", T, visc, 1]]),
+                                     ["polynominal", T, visc, 1], ["interextra", Tw, viscw, "interpolate"]]),
             "heat_capacity": rng.choice([["constant", 4180.0, False], ["linear", 0.5, 4000.0]])}}
         program["fluid"] = "custom_liquid"
     if prop == "C15":
@@ -999,8 +1004,18 @@ def _save_load(net, path, fs, fault, eno, n):
         raise ValueError(path)
     except OSError as e:
         return None, e
+    except seams.HarnessFSError:
+        raise
+    except Exception as e:   # saving / loading a valid net must not fail for any other reason
+        return None, _SaveLoadRaised(e)
     finally:
         fs.fail_next = None
+
+
+class _SaveLoadRaised(Exception):
+    def __init__(self, exc):
+        super().__init__(repr(exc)[:300])
+        self.exc = exc
 
 
 def compare_loaded(orig, loaded, path):
@@ -1099,6 +1114,10 @@ def _do_restart(res, live, op, fs, oi, n):
     after = snap.snapshot(live.net, include_results=True)
     for x in snap.diff(before, after):
         res.violate("C15", "C15/save-mutated-net:%s@%s" % (_strip(x), op["path"]), x, oi)
+    if isinstance(err, _SaveLoadRaised):
+        res.violate("C15", "C15/save-load-raised:%s:%s@%s" % (type(err.exc).__name__, _slug(err.exc), op["path"].split("_")[0]),
+                    str(err), oi)
+        return
     if op.get("disk_fault"):
         res.count("fault:disk-%s" % op["disk_fault"])
         if err is None:
